@@ -76,7 +76,10 @@ func (e *Engine) GenFunc(key string) (vcs []*VC, res *FuncResult) {
 		cases = next
 	}
 	res.Cases = len(cases)
-	for _, c := range cases {
+	for ci, c := range cases {
+		// vacuity probes are sampled for split functions (first, middle, last case): the hypotheses
+		// have the same shape in every case
+		e.skipVacuity = len(cases) > 8 && !(ci == 0 || ci == len(cases)/2 || ci == len(cases)-1)
 		vc := e.verifyCase(fn, con, c)
 		res.Obls = append(res.Obls, vc.Obls...)
 		vcs = append(vcs, vc)
@@ -365,7 +368,7 @@ func (e *Engine) verifyCase(fn *ssa.Function, con *Contract, choice []splitChoic
 		e.Note("unchecked entry assumption of " + fn.String() + ": " + r.Text)
 	}
 	vc.PreN = len(vc.Assumes)
-	residual := len(choice) == 1 && choice[0].sp == nil
+	residual := len(choice) == 1 && choice[0].sp == nil || e.skipVacuity
 	if (!con.SafetyOnly || len(con.Requires) > 0) && !residual {
 		o := vc.Oblige("pre-sat", "pre-sat", True, False, x.pos(fn.Pos()), "precondition is satisfiable (vacuity guard; expected: sat)")
 		o.Result, o.Solver, o.Folded = "", "", false
@@ -666,6 +669,8 @@ func (e *Engine) globalAxioms(x *Exec) {
 	// user axioms
 	env := &SpecEnv{x: x, heap: map[string]*Term{}, bound: map[string]*SV{}}
 	for _, a := range e.Axioms {
-		vc.Assume(env.evalBool(a.E))
+		// kept apart from the hypotheses: an axiom is only emitted into a query that mentions one of
+		// its uninterpreted symbols (unused quantified axioms make the solvers give up)
+		vc.Axioms = append(vc.Axioms, env.evalBool(a.E))
 	}
 }
